@@ -5,6 +5,9 @@ from . import gen
 from . import refsym as R
 
 
+P_INTEGER = 0.04
+
+
 def _lowrank(npr, shape, dtype, rank):
     m, n = shape
     r = max(1, min(rank, m, n))
@@ -21,7 +24,7 @@ def structured_blocks(rng, npr, x, dtype):
     special-case): symmetric, complex symmetric (NOT hermitian), hermitian, diagonal, diagonal
     of phases, triangular, orthogonal / unitary, constant. -> name of the structure or None"""
     cplx = np.dtype(dtype).kind == "c"
-    st = rng.choice(["symmetric", "symmetric", "hermitian", "diagonal", "phases", "triangular", "unitary", "constant", "antisymmetric", "integer-diagonal", "integer-diagonal", "same-block-in-every-sector", "near-tie-diagonal"])
+    st = rng.choice(["symmetric", "symmetric", "hermitian", "diagonal", "phases", "triangular", "unitary", "constant", "antisymmetric", "integer-diagonal", "integer-diagonal", "same-block-in-every-sector", "near-tie-diagonal", "null-rows-or-columns", "null-rows-or-columns"])
     if st == "same-block-in-every-sector":
         # bit-identical singular values in different charge sectors
         shapes = {}
@@ -35,6 +38,20 @@ def structured_blocks(rng, npr, x, dtype):
                 done = True
         return st if done else None
     done = False
+    if st == "null-rows-or-columns":
+        # identically zero rows / columns inside otherwise generic blocks of any shape (what
+        # multiplying by a 0/1 diagonal, or an operator that annihilates some states, leaves)
+        for s_, b in list(x.blocks.items()):
+            b = np.array(b)
+            if b.ndim != 2 or min(b.shape) < 2:
+                continue
+            if rng.random() < 0.7:
+                b[rng.sample(range(b.shape[0]), rng.randint(1, max(1, b.shape[0] // 2)))] = 0
+            if rng.random() < 0.5:
+                b[:, rng.sample(range(b.shape[1]), rng.randint(1, max(1, b.shape[1] // 2)))] = 0
+            x.blocks[s_] = b
+            done = True
+        return st if done else None
     for s_, b in list(x.blocks.items()):
         b = np.asarray(b)
         if b.ndim != 2 or b.shape[0] != b.shape[1]:
@@ -72,7 +89,7 @@ def structured_blocks(rng, npr, x, dtype):
 def rand_matrix(ctx, rng, sym=None, fermionic=None, kind=None, dtype=None, square=False, uniform=False, min_charges=1, nphase=None, sparsity=None, max_charges=3):
     """-> (x, features:set). kind in direct|fused|deficient."""
     sr = ctx.sr
-    sym = sym or rng.choice(gen.SYMS5)
+    sym = sym or gen.pick_sym(rng)
     if fermionic is None:
         fermionic = rng.random() < 0.5
     kind = kind or rng.choice(["direct", "direct", "fused", "deficient"])
@@ -156,6 +173,12 @@ def rand_matrix(ctx, rng, sym=None, fermionic=None, kind=None, dtype=None, squar
                 feats.add("two-label-matrix")
         except Exception:
             pass
+    if np.dtype(dtype).kind == "f" and kind != "fused" and "elongated-ill-conditioned-block" not in feats and rng.random() < P_INTEGER:
+        # integer-typed blocks (hand-written hopping / adjacency / counting operators)
+        idt = rng.choice([np.int64, np.int64, np.int32])
+        for s_, b in list(x.blocks.items()):
+            x.blocks[s_] = np.clip(np.rint(np.asarray(b) * 2.0), -100, 100).astype(idt)
+        feats.add("integer-typed-blocks")
     if rng.random() < 0.08:
         x, hist_ = gen.identity_history(sr, rng, x)
         if hist_:
@@ -193,6 +216,13 @@ def hermitian_matrix(ctx, rng, sym=None, fermionic=None, dtype=None):
         for s in keys[: rng.randint(1, len(keys) - 1)]:
             x.blocks[s] = np.ascontiguousarray(x.blocks[s].real)
         feats.add("mixed-dtype-blocks")
+    if "integer-typed-blocks" in feats or (not np.iscomplexobj(next(iter(x.blocks.values()))) and rng.random() < P_INTEGER):
+        # symmetric integer-typed blocks (bool now and then: adjacency matrices)
+        idt = rng.choice([np.int64, np.int64, np.int32] + ([] if getattr(x, "fermionic", False) else [np.bool_]))
+        for s in list(x.blocks):
+            b = np.rint(np.asarray(x.blocks[s], dtype="float64") * 2.0)
+            x.blocks[s] = (b != 0) if idt is np.bool_ else np.clip(b, -100, 100).astype(idt)
+        feats.add("integer-typed-blocks")
     if getattr(x, "fermionic", False) and rng.random() < 0.5:
         x.phase_transpose((1, 0), inplace=True)  # pending signs on odd-odd blocks, still hermitian
         if any(v == -1 for v in x.phases.values()):
